@@ -342,6 +342,13 @@ def run_entries(spec, ctx):
         CUR['last_entry_nontrivial'] = False
         try:
             c = db.get_by_label(k)
+            if c is not None and rng.random() < 0.3:
+                # the owner edits what it was handed; a later fetch of the same entry must not see it
+                with monitor.suspended():
+                    from vt import netgen as _ng
+                    _ng.scribble(c, rng)
+                c = db.get_by_label(k)
+                ctx.count('refetched_after_scribble')
             if c is None:
                 ctx.violation('CircuitsDatabase.get_by_label', 'wrong_result', 'key_lost', 'key %s read by the own reader is not found' % k, CUR['case'])
         except Exception as e:
@@ -363,7 +370,12 @@ def do_lookup(db, name, rows, ctx):
     CUR['case'] = {'kind': 'lookup', 'db': name, 'table': [''.join('1' if v else '0' for v in r) for r in rows]}
     CUR['last_flags'] = (False, False, False)
     try:
-        db.get_by_raw_truth_table([list(r) for r in rows])
+        got = db.get_by_raw_truth_table([list(r) for r in rows])
+        if got is not None and CUR.get('scribble_rng') is not None and CUR['scribble_rng'].random() < 0.5:
+            with monitor.suspended():
+                from vt import netgen as _ng
+                _ng.scribble(got, CUR['scribble_rng'])
+            ctx.count('result_scribbled')
     except Exception as e:
         ctx.unexpected('CircuitsDatabase.get_by_raw_truth_table', e, CUR['case'])
         return
@@ -386,6 +398,7 @@ def run_lookups(spec, ctx):
     name = spec['db']
     db, keys = open_db(name)
     rng = random.Random('%s:%s:lk:%s' % (ctx.seed, name, spec['part']))
+    CUR['scribble_rng'] = random.Random('%s:scribble' % ctx.seed)
     i = 0
     for n, m in ((2, 1), (2, 2), (2, 3), (3, 1)):
         for rows in _all_tables(n, m):
